@@ -20,6 +20,7 @@ class TranslationError(Exception):
 
 
 BW = 8          # width of every bit-vector in the store
+UNTRANSLATED = 99
 
 
 def bv(v):
@@ -268,7 +269,7 @@ class Machine:
             else:
                 key = self.local_key_typed(thread, frame, p, (k.kind, k.cls))
                 copies.append((key, spec))
-        for sub in ast.walk(fdef):
+        for sub in walk_own(fdef):
             if isinstance(sub, ast.Assign):
                 for tg in sub.targets:
                     self.predeclare(thread, frame, tg)
@@ -356,6 +357,22 @@ class Machine:
             if isinstance(st, ast.Assign):
                 for tg in st.targets:
                     self.predeclare(thread, frame, tg)
+                # locals declared 'static' hold constants: bind them now, independent of encoding order
+                names = []
+                for tg in st.targets:
+                    names.extend([e.id for e in (tg.elts if isinstance(tg, (ast.Tuple, ast.List)) else [tg]) if isinstance(e, ast.Name)])
+                if names and all(thread.locals.get(frame.locals.get(nm), ("", None))[0] == "static" for nm in names):
+                    val = self.kind_of(thread, st.value, frame)
+                    ctxd = None
+                    tg = st.targets[0]
+                    if isinstance(tg, ast.Name):
+                        frame.static[tg.id] = val
+                    elif val.kind == "tuple" and len(val.items) == len(tg.elts):
+                        for e, v in zip(tg.elts, val.items):
+                            frame.static[e.id] = v
+                    else:
+                        raise TranslationError("static assignment shape at line %d" % st.lineno)
+                    return nxt
             n = self.add_node(thread, "stmt", st, frame, func)
             n.succ = nxt
             n.exc = list(handlers)
@@ -459,6 +476,11 @@ class Machine:
             return self.build_block(thread, st.body, frame, nxt, jumps, inner, locks, func)
         if isinstance(st, (ast.Global, ast.Nonlocal, ast.Import, ast.ImportFrom)):
             return nxt
+        if isinstance(st, ast.FunctionDef):
+            # a nested helper: calls to it must be modelled by the domain (dom.functions[name])
+            if st.name not in self.dom.functions:
+                raise TranslationError("nested function %s has no model" % st.name)
+            return nxt
         raise TranslationError("statement form %s at line %d is not supported by the schedule front end" % (type(st).__name__, st.lineno))
 
     def predeclare(self, thread, frame, target):
@@ -502,6 +524,19 @@ class Machine:
             if m == method and self.dom.receiver_is(call.func.value, frame, cls):
                 return cls, method, call.func.value
         return None
+
+
+def walk_own(fdef):
+    """all nodes of a function body, not descending into nested function definitions"""
+    todo = list(fdef.body)
+    while todo:
+        n = todo.pop()
+        if isinstance(n, (ast.FunctionDef, ast.Lambda, ast.ClassDef)):
+            continue
+        yield n
+        for c in ast.iter_child_nodes(n):
+            if not isinstance(c, (ast.FunctionDef, ast.Lambda, ast.ClassDef)):
+                todo.append(c)
 
 
 def dotted(n):
@@ -568,6 +603,10 @@ class Evaluator:
             if node.id in frame.locals:
                 key = frame.locals[node.id]
                 kind, cls = ctx.thread.locals[key]
+                if kind == "static":
+                    if node.id not in frame.static:
+                        raise TranslationError("static local %s read before assignment" % node.id)
+                    return frame.static[node.id]
                 return AV(kind, ctx.get(key), cls, origin=("local", key))
             if node.id in frame.static:
                 return self.resolve_arg(frame.static[node.id], ctx)
@@ -653,6 +692,8 @@ class Evaluator:
             kind, c2 = spec["fields"][attr]
             if kind == "obj":
                 return AV("obj", None, c2)
+            if kind == "value":
+                return c2
             if kind == "lock":
                 k0 = self.m.field_key(cls, 0, attr)
                 return AV("lock", (k0 + ".owner", k0 + ".depth", bool(c2)))
@@ -787,6 +828,11 @@ class Evaluator:
         if isinstance(target, ast.Name):
             key = frame.locals[target.id]
             kind, cls = ctx.thread.locals[key]
+            if kind == "static":
+                if val.kind not in ("const", "obj", "tuple"):
+                    raise TranslationError("local %s is declared static but gets %r" % (target.id, val))
+                frame.static[target.id] = val
+                return
             ctx.set(key, self.coerce(val, kind, cls).term)
         elif isinstance(target, ast.Attribute):
             base = self.ev(target.value, ctx, frame)
@@ -860,12 +906,16 @@ class Encoder:
             self.init[t.name + ".exc"] = bv(0)
             for key, (kind, cls) in t.locals.items():
                 self.vars[key] = "bool" if kind == "bool" else "bv"
+                if kind == "static":
+                    del self.vars[key]
+                    continue
                 if kind == "bool":
                     self.init[key] = z3.BoolVal(False)
                 elif kind == "ref":
                     self.init[key] = bv(machine.dom.count(cls))
                 else:
                     self.init[key] = bv(0)
+        self.untranslated = {}
         self.extra_guards = {}     # thread name -> f(state) -> z3 bool (thread may run at all)
         self.enabled_at = []
 
@@ -1039,7 +1089,13 @@ class Encoder:
                 if node.kind in ("call", "jump"):
                     continue
                 self.m.accessed = set()
-                g, c, u = self.fire(t, ti, node, state, nd)
+                try:
+                    g, c, u = self.fire(t, ti, node, state, nd)
+                except TranslationError as x:
+                    # not translatable: reaching this node is reported (it must be unreachable for a verdict)
+                    self.untranslated[(t.name, node.idx)] = str(x)
+                    g, c = z3.BoolVal(True), z3.BoolVal(True)
+                    u = {t.name + ".outcome": bv(UNTRANSLATED), t.name + ".pc": bv(node.idx), t.name + ".exc": state[t.name + ".exc"]}
                 acc = {k for k in self.m.accessed if not k.startswith(t.name + ".")}
                 if not acc and node.kind not in ("end",):
                     self.m.local_nodes.setdefault(t.name, set()).add(node.idx)
